@@ -109,6 +109,10 @@ def run(report, tier, seed):
     res = solvex.explore(report, MOD, cps, classify=classify)
     solvex.site_floor(report, res["tags"], exempt=SITE_EXEMPT)
     solvex.exit_floor(report, res["tags"], exempt=EXIT_EXEMPT)
+    try:    # reported, not required: two of the sites need averaging, which C04's statement excludes (C03 requires them all)
+        solvex.save_floor(report, res["tags"])
+    except common.HarnessError:
+        pass
     tags = res["tags"]
     cov = report.coverage
     dev_exits = sorted(t for t in tags if t.startswith("best_from_deviation|"))
